@@ -7,6 +7,7 @@ import (
 	"math/rand"
 	"runtime"
 	"sort"
+	"strings"
 	"time"
 
 	"github.com/RoaringBitmap/roaring/v2"
@@ -373,6 +374,15 @@ func engineLive() int {
 		runtime.Gosched()
 		time.Sleep(50 * time.Microsecond)
 	}
+}
+
+// engineMisuse returns (and clears) double frees / uses after free of native objects
+// recorded by the engine stand-in since the last call; "" if there were none.
+func engineMisuse() string {
+	if m := faiss.Ctl.TakeMisuse(); len(m) > 0 {
+		return strings.Join(m, "; ")
+	}
+	return ""
 }
 
 func vecMergeOracleFile(path string, exp *ref.Content) string {
